@@ -1209,3 +1209,16 @@ func init() {
 		New: "\tif s.shrinking {\n\t\treturn retwerr(errKeyHasHooksSet)\n\t}\n\tvar updated bool\n\tnewCol, _ := s.cols.Get(newKey)\n",
 		Why: "not behaviour-preserving: one possible repair of the known finding F30 (RENAME refused while a rewrite runs); the rule must be silent on it"})
 }
+
+func init() {
+	// ---- R20.position-needs-spatial: the reverse of the two repairs -------------------------------------------------
+	const fFence2 = "internal/server/fence.go"
+	mutant(&Mutant{Name: "roam-neighbours-of-a-string", Props: []string{"C20", "C05"}, File: fFence2,
+		Old:    "\tif obj == nil || !objIsSpatial(obj.Geo()) {\n",
+		New:    "\tif obj == nil {\n",
+		Expect: "R20.position-needs-spatial", Key: "fenceMatchNearbys→obj.Geo().Center()", Why: "reverse of fix a2b5a07: the neighbours of a previous STRING value are searched around 0N 0E and reported 'faraway'"})
+	mutant(&Mutant{Name: "cross-from-a-string", Props: []string{"C05", "C20"}, File: fFence2,
+		Old:    "if !nocross && details.old != nil && objIsSpatial(details.old.Geo()) {",
+		New:    "if !nocross && details.old != nil {",
+		Expect: "R20.position-needs-spatial", Key: "fenceMatch→details.old.Geo().Center()", Why: "reverse of fix efd4714: the segment from 0N 0E to the new position 'crosses' fences when the previous value was a string"})
+}
